@@ -28,6 +28,13 @@ impl BoundSet {
         use Bound::*;
         use Predicate::*;
 
+        // A bound above MAX_SAFE_INTEGER (the upper bound of `^900719925474099.1.2`,
+        // say) is not a version: it could not be parsed back, and node-semver
+        // rejects such a comparator.
+        if !lower.is_valid() || !upper.is_valid() {
+            return None;
+        }
+
         match (lower, upper) {
             (Lower(Excluding(v1)), Upper(Including(v2)))
             | (Lower(Including(v1)), Upper(Excluding(v2)))
@@ -267,6 +274,18 @@ impl Bound {
 
     fn lower() -> Self {
         Bound::Lower(Predicate::Unbounded)
+    }
+
+    fn is_valid(&self) -> bool {
+        match self {
+            Bound::Lower(Predicate::Including(v) | Predicate::Excluding(v))
+            | Bound::Upper(Predicate::Including(v) | Predicate::Excluding(v)) => {
+                v.major <= MAX_SAFE_INTEGER
+                    && v.minor <= MAX_SAFE_INTEGER
+                    && v.patch <= MAX_SAFE_INTEGER
+            }
+            _ => true,
+        }
     }
 
     fn predicate(self) -> Predicate {
